@@ -50,10 +50,7 @@ func main() {
 			return c.Finish()
 		}
 		c.Prog = prog
-		p.Run(c)
-		if *tier == "thorough" && p.Thorough != nil {
-			p.Thorough(c)
-		}
+		props.RunWithFallback(c, p, *tier == "thorough")
 		return c.Finish()
 	}()
 	os.Exit(code)
